@@ -209,6 +209,8 @@ type Interp struct {
 	yieldFlag bool
 	ranges   map[string]uint64
 	noPreempt int
+	xmlEnc   map[*Cell]*xmlEncState
+	xmlDec   map[*Cell]*xmlDecState
 	model    map[string]uint64 // satisfying assignment of the current path condition (nil = unknown)
 }
 
@@ -262,6 +264,7 @@ func (in *Interp) resetRun(prefix []int) {
 	in.objs = map[string]Value{}
 	in.ranges = nil
 	in.noPreempt = 0
+	in.xmlEnc, in.xmlDec = nil, nil
 	in.model = map[string]uint64{} // the empty path condition is satisfied by anything
 	in.raceOn = in.cfg.Race
 }
